@@ -363,4 +363,136 @@ fn generate_part4(rng: &mut Rng, tier: &str, w: &mut CaseWriter) {
         }
         w.push("bph", vec![hex(&block_bytes(&b))]);
     }
+    generate_lzv(rng, tier, w);
+}
+
+// ---- lzv: the lazy sam::Record on one line, modelled (NV.Sam.Lazy)
+//   lzv refs hexline -> Eof | ReadErr | Err:<column> | Panic:<column> |
+//                       dump of the eleven columns (data column `_`) + hex of Record::data().as_ref()
+//   every accessor is evaluated in column order under its own panic guard; the first failure decides
+
+fn run_lzv(c: &Case) -> Obs {
+    use std::panic::AssertUnwindSafe as A;
+    let refs = dec_refs(&c.args[0]);
+    let line = c.b(1);
+    let header = header_of_refs(&refs);
+    let read = guarded(|| {
+        let mut rd = sam::io::Reader::new(&line[..]);
+        let mut rec = sam::Record::default();
+        rd.read_record(&mut rec).map(|n| (n, rec))
+    });
+    let rec = match read {
+        Outcome::Done(Ok((0, _))) => return Obs::ok("Eof", false),
+        Outcome::Done(Ok((_, r))) => r,
+        Outcome::Done(Err(_)) => return Obs::ok("ReadErr", false),
+        Outcome::Panicked(m) => return Obs::fail("Panic", "panic-sam-read-lazy", m),
+    };
+    // a panic of an accessor is an observation of this kind (the model predicts it); whether it
+    // is acceptable is the business of the hostile-input property
+    macro_rules! col {
+        ($name:expr, $e:expr) => {
+            match guarded(A(|| $e)) {
+                Outcome::Done(Ok(v)) => v,
+                Outcome::Done(Err(())) => return Obs::ok(format!("Err:{}", $name), false),
+                Outcome::Panicked(_) => return Obs::ok(format!("Panic:{}", $name), true),
+            }
+        };
+    }
+    let mut s = Spec::default();
+    s.name = col!("name", Ok::<_, ()>(rec.name().map(|n| n.to_vec())));
+    s.flags = col!("flags", rec.flags().map(u16::from).map_err(|_| ()));
+    s.rid = col!("rname", rec.reference_sequence_id(&header).transpose().map_err(|_| ()));
+    s.pos = col!("pos", rec.alignment_start().transpose().map(|p| p.map(usize::from).unwrap_or(0)).map_err(|_| ()));
+    s.mapq = col!("mapq", rec.mapping_quality().transpose().map(|m| m.map(|m| m.get()).unwrap_or(255)).map_err(|_| ()));
+    s.cigar = col!("cigar", {
+        let mut v = Vec::new();
+        let mut bad = false;
+        for op in rec.cigar().iter() {
+            match op {
+                Ok(op) => v.push((code_of(op.kind()), op.len())),
+                Err(_) => {
+                    bad = true;
+                    break;
+                }
+            }
+        }
+        if bad { Err(()) } else { Ok(v) }
+    });
+    s.mrid = col!("rnext", rec.mate_reference_sequence_id(&header).transpose().map_err(|_| ()));
+    s.mpos = col!("pnext", rec.mate_alignment_start().transpose().map(|p| p.map(usize::from).unwrap_or(0)).map_err(|_| ()));
+    s.tlen = col!("tlen", rec.template_length().map_err(|_| ()));
+    s.seq = col!("seq", Ok::<_, ()>(rec.sequence().as_ref().to_vec()));
+    s.qual = col!("qual", {
+        use sam::alignment::record::QualityScores as _;
+        rec.quality_scores().iter().collect::<io::Result<Vec<u8>>>().map_err(|_| ())
+    });
+    let data = col!("data", Ok::<_, ()>(rec.data().as_ref().to_vec()));
+    Obs::ok(format!("{} {}", dump_spec(&s), hex(&data)), true)
+}
+
+fn generate_lzv(rng: &mut Rng, tier: &str, w: &mut CaseWriter) {
+    let thorough = tier == "thorough";
+    let n = if thorough { 12000 } else { 900 };
+    let refs = vec![b"chr1".to_vec(), b"chr2".to_vec()];
+    for l in [
+        &b"*\t4\t*\t0\t255\t*\t*\t0\t0\t*\t*\n"[..],
+        &b"*\t4\t*\t0\t255\t*\t*\t0\t0\t*\t*\r\n"[..],
+        &b"*\t4\t*\t0\t255\t*\t*\t0\t0\t*\t*"[..],
+        &b"*\t4\t*\t0\t255\t*\t*\t0\t0\t*\t*\t\n"[..],
+        &b"*\t4\t*\t0\t255\t*\t*\t0\t0\t*\t*\t\r\n"[..],
+        &b"*\t4\t*\t0\t255\t*\t*\t0\t0\t*\t*\tXA:i:1\tXB:Z:a b\r\n"[..],
+        &b"*\t4\t*\t0\t255\t*\t*\t0\t0\t*\t*\tXA:i:1\t\n"[..],
+        // a CR at the end of a column followed by an empty last column belongs to that column
+        // (before /repo 3506cd5 it was popped after the end offset was recorded: accessor panics)
+        &b"*\t4\t*\t0\t255\t*\t*\t0\t0\tA\r\t\n"[..],
+        &b"*\t4\t*\t0\t255\t*\t*\t0\t0\tA\tB\r\t\n"[..],
+        &b"*\t4\t*\t0\t255\t*\t*\t0\t0\tA\r\t\nnext"[..],
+        &b"*\t4\t*\t0\t255\t*\t*\t0\t0\t\r\t\n"[..],
+        &b"*\t4\t*\t0\t255\t*\t*\t0\t0\r\t\t\n"[..],
+        &b"*\t4\t*\t0\t255\t*\t*\t0\t0\t*\t*\r\t\n"[..],
+        &b"*\t4\t*\t0\t255\t*\t*\t0\t0\t*\t*\r\t\r\n"[..],
+        // non-canonical zero positions, signs, leading zeros
+        &b"r\t0\tchr1\t00\t255\t*\t*\t0\t0\t*\t*\n"[..],
+        &b"r\t0\tchr1\t+0\t255\t*\t*\t000\t0\t*\t*\n"[..],
+        &b"r\t+4\tchr1\t007\t0255\t+3M\t=\t+1\t-0\tACG\t!!!\n"[..],
+        &b"r\t65535\tchr2\t1\t256\t3M\tchr1\t1\t2147483648\tACG\t!!!\n"[..],
+        // short lines and the end of input
+        &b"\n"[..],
+        &b"r"[..],
+        &b"r\t4"[..],
+        &b"r\t4\n"[..],
+        &b"r\t4\t*\t0\t255\t*\t*\t0\t0\t*\n"[..],
+        &b"r\t4\t*\t0\t255\t*\t*\t0\t0\t*"[..],
+        &b"\t\t\t\t\t\t\t\t\t\t\n"[..],
+        &b"\t\t\t\t\t\t\t\t\t\t"[..],
+        &b"r\t4\tchr3\t0\t255\t*\t=\t0\t0\t*\t*\n"[..],
+        &b"r\t4\t*\t0\t255\t*\t=\t0\t0\t*\t*\n"[..],
+        &b"r\t4\t*\t0\t255\t\t*\t0\t0\t\t\n"[..],
+        &b"r\t4\t*\t0\t255\t3M2\t*\t0\t0\tA\t \n"[..],
+        &b"r\t4\t*\t0\t255\t*\t*\t0\t0\t*\t*\nsecond\t4\n"[..],
+    ] {
+        w.push("lzv", vec![enc_refs(&refs), hex(l)]);
+    }
+    for _ in 0..n {
+        let refs = gen_refs_plain(rng);
+        let s = gen_record(rng, refs.len());
+        let header = header_of_refs(&refs);
+        let line = match guarded(std::panic::AssertUnwindSafe(|| sam_write_record(&header, &to_record_buf(&s)))) {
+            Outcome::Done(Ok(t)) => t,
+            _ => continue,
+        };
+        let line = match rng.below(6) {
+            0 | 1 => line,
+            2 => {
+                // CRLF, or no line end at all
+                let mut l = line[..line.len() - 1].to_vec();
+                if rng.chance(1, 2) {
+                    l.extend_from_slice(b"\r\n");
+                }
+                l
+            }
+            _ => mutate_line(rng, &line),
+        };
+        w.push("lzv", vec![enc_refs(&refs), hex(&line)]);
+    }
 }
